@@ -152,6 +152,17 @@ Definition open_keeps_lock : bool :=
   negb (existsb (fun c => String.eqb c "lock.Unlock" || String.eqb c "db.lock.Unlock") (calls (lookup "Open"))) &&
   subseq ["createLockFile"; "backupNonsegmentFiles"; "openIndex"; "openDatalog"; "db.recover"] (calls (lookup "Open")).
 
+(* the background worker (periodic Sync and COMPACTION) is started only after recovery has finished:
+   recover() runs without db.mu, because nobody else can hold the handle yet *)
+Fixpoint before_first (stop : string) (l : list string) : list string :=
+  match l with
+  | [] => []
+  | x :: l' => if String.eqb x stop then [] else x :: before_first stop l'
+  end.
+Definition open_worker_after_recovery : bool :=
+  negb (existsb (String.eqb "db.startBackgroundWorker") (before_first "db.recover" (calls (lookup "Open")))) &&
+  existsb (String.eqb "db.recover") (calls (lookup "Open")).
+
 (* write-ahead order: Put appends to the log before it touches the index; Delete's index update and its
    log record are inside one exclusive section; recovery moves the non-segment files aside before it
    opens the index *)
@@ -174,3 +185,4 @@ Theorem shape_lockfile : lockfile_shape_ok = true. Proof. vm_compute. reflexivit
 Theorem shape_no_lock_leak : lock_leaks = []. Proof. reflexivity. Qed.
 Theorem shape_write_ahead : write_ahead_ok = true. Proof. vm_compute. reflexivity. Qed.
 Theorem shape_open_keeps_lock : open_keeps_lock = true. Proof. vm_compute. reflexivity. Qed.
+Theorem shape_open_worker_after_recovery : open_worker_after_recovery = true. Proof. vm_compute. reflexivity. Qed.
